@@ -5,7 +5,7 @@ META = {
     "functions": ["fibre_scheduler_next", "fibre_run", "fibre_kill", "fibre_run_atomic", "fibre_timeout", "fibre_eventq_claim", "fibre_eventq_send", "fibre_eventq_receive",
                   "fibre_eventq_release", "handle_atomic_runq", "handle_timerq", "update_current_state", "get_next_wakeup", "messageq_*", "list_*"],
     "units": ["librfn/fibre.c, messageq.c, list.c, util.c - all included into the harness TU and compiled with the shim <stdatomic.h> (harness/shim)"],
-    "bounds": {"quick": "every placement of 1 interrupt handler (thorough: 2) (real fibre_run_atomic(f) for any of 3 fibres, or fibre_eventq_claim + write + fibre_eventq_send) "
+    "bounds": {"quick": "every placement of 1 interrupt handler (thorough: 2) (real fibre_run_atomic(f) for any of 3 fibres; fibre_eventq_claim + write + fibre_eventq_send; or - with 2 handlers - two claims with only the second sent, the first sent by the later handler) "
                         "before any atomic operation the main context executes during 2 scheduler passes (+ an interruptible fibre_run between them, an optional "
                         "fibre_kill), then <= 4 passes with interrupts off until idle; event-handling, yielding (0..2 yields) and sleeping fibre; pass times symbolic",
                "thorough": "2 handlers over 2 passes"},
@@ -22,15 +22,15 @@ META = {
 }
 
 
-def q(name, nirq, npass, ndrain, role="prove", mutate=None, timeout=2400):
+def q(name, nirq, npass, ndrain, role="prove", mutate=None, timeout=2400, extra=None):
     uw = "handle_atomic_runq.0:%d,h_irq.0:%d,h_irq.1:%d,queues_well_formed.0:5,queues_well_formed.1:5,queues_well_formed.2:5,queues_well_formed.3:5" % (nirq + 2, npass + 1, ndrain + 1)
-    return Query(name, "c06.c", "h_irq", defines={"NIRQ": nirq, "NPASS": npass, "NDRAIN": ndrain}, unwind=5, unwindset=uw, cc_flags=["-I", "harness/shim"],
+    return Query(name, "c06.c", "h_irq", defines=dict({"NIRQ": nirq, "NPASS": npass, "NDRAIN": ndrain}, **(extra or {})), unwind=5, unwindset=uw, cc_flags=["-I", "harness/shim"],
                  timeout=timeout, mem_gb=14, object_bits=12, role=role, mutate=mutate,
                  tolerate=[(r"arithmetic overflow on signed shl", "1 << slot in messageq (signed-shift class, see C10)")])
 
 
 def queries(tier, kf):
-    qs = [q("c06-irq1-pass2", 1, 2, 4)]
+    qs = [q("c06-irq1-pass2", 1, 2, 4), q("c06-irq2-events-out-of-order", 2, 2, 4, extra={"EVENTS_OUT_OF_ORDER": None})]
     if tier == "thorough":
         qs += [q("c06-irq2-pass2", 2, 2, 4, timeout=7200)]
     cans = [("request-not-published", "\t*queued_fibre = f;\n\tmessageq_send(&kernel.atomic_runq, queued_fibre);\n\treturn true;", "\t*queued_fibre = f;\n\treturn true;"),
